@@ -452,3 +452,53 @@ package gpbft
 //@   property C03 C05
 //@   modifies nothing
 //@   ensures[compares_commitments_and_power_table_cid] result == (d.Commitments == other.Commitments && d.PowerTable == other.PowerTable)
+
+// ---- C07: protocol discipline of an honest participant ----
+
+//@ func (*instance).addCandidate
+//@   property C07
+//@   modifies auto
+//@   ensures[the_chain_is_a_candidate_afterwards_and_no_candidate_is_lost] has(i.candidates, res(Key, 1)) && argOf(Key, 1, 0) == c && forall(ECChainKey(k), old(has(i.candidates, k)) ==> has(i.candidates, k))
+//@   ensures[reports_whether_it_was_new] result == !old(has(i.candidates, res(Key, 1)))
+
+// Every proper prefix of the chain (two tipsets and up, the chain itself included) becomes a candidate: the loop visits
+// every length from Len-1 down to 1 and hands each prefix to addCandidate.
+//@ func (*instance).addCandidatePrefixes
+//@   property C07
+//@   harness harness/gpbft_candidate_prefixes_test.go
+//@   modifies auto
+//@   at addCandidate 1
+//@     before[each_prefix_is_added] arg(1) == res(Prefix, 1) && argOf(Prefix, 1, 0) == c && argOf(Prefix, 1, 1) == l && l >= 1 && l <= res(Len, 1) - 1 && argOf(Len, 1, 0) == c
+//@   at loopback 1
+//@     before[lengths_are_visited_one_by_one_downwards] l == prev(l) - 1
+//@   at return 0
+//@     before[stops_only_after_the_shortest_proper_prefix] l <= 0
+//@   loop 1
+//@     invariant l <= res(Len, 1) - 1 && (c != nil ==> res(Len, 1) == len(c.TipSets) && c.TipSets == old(c.TipSets))
+
+// The value adopted after QUALITY: the input itself if it has a strong quorum, else the longest prefix that has one
+// (prefixes are tried longest first and the first hit is returned), else the base.
+//@ func (*quorumState).FindStrongQuorumValueForLongestPrefixOf
+//@   property C07
+//@   modifies auto
+//@   maypanic
+//@   at return 1
+//@     before[the_whole_input_when_it_has_a_strong_quorum] res(HasStrongQuorumFor, 1) && argOf(HasStrongQuorumFor, 1, 0) == q && argOf(HasStrongQuorumFor, 1, 1) == res(Key, 1) && argOf(Key, 1, 0) == preferred && arg(0) == preferred
+//@   at return 2
+//@     before[a_prefix_with_a_strong_quorum] res(HasStrongQuorumFor, 2) && argOf(HasStrongQuorumFor, 2, 0) == q && argOf(HasStrongQuorumFor, 2, 1) == res(Key, 2) && argOf(Key, 2, 0) == longestPrefix && arg(0) == longestPrefix && longestPrefix == res(Prefix, 1) && argOf(Prefix, 1, 0) == preferred && argOf(Prefix, 1, 1) == i && !res(HasStrongQuorumFor, 1)
+//@   at loopback 1
+//@     before[longer_prefixes_without_quorum_are_passed_over_one_by_one] i == prev(i) - 1 && !res(HasStrongQuorumFor, 2)
+//@   at return 3
+//@     before[the_base_only_when_no_prefix_has_a_strong_quorum] i < 0 && arg(0) == res(BaseChain, 1) && argOf(BaseChain, 1, 0) == preferred && !res(HasStrongQuorumFor, 1)
+//@   loop 1
+//@     invariant i <= res(Len, 1) - 1
+
+//@ func (*instance).tryQuality
+//@   property C07
+//@   modifies auto
+//@   maypanic
+//@   opaque FindStrongQuorumValueForLongestPrefixOf, beginPrepare, addCandidatePrefixes
+//@   at beginPrepare 1
+//@     before[prepare_value_is_the_longest_quorum_backed_prefix_of_the_input] old(i.current.Phase) == QUALITY_PHASE && i.proposal == res(FindStrongQuorumValueForLongestPrefixOf, 1) && argOf(FindStrongQuorumValueForLongestPrefixOf, 1, 0) == i.quality && argOf(FindStrongQuorumValueForLongestPrefixOf, 1, 1) == i.input && i.value == i.proposal && arg(1) == nil
+//@     before[its_prefixes_become_candidates] dominatedBy(addCandidatePrefixes, 1) && argOf(addCandidatePrefixes, 1, 1) == i.proposal
+//@     before[only_on_quorum_for_the_own_proposal_or_timeout] res(HasStrongQuorumFor, 1) || res(phaseTimeoutElapsed, 1)
